@@ -17,7 +17,7 @@ ASSUMPTIONS = [
 ]
 BUDGET = {"quick": 4000, "thorough": 150000}
 TIME_CAP = {"quick": 75, "thorough": 1500}
-PROFILE = {"p_deriv": 0.1, "p_agg_transition": 0.1, "p_programs": 0.3, "p_second_type": 0.15}
+PROFILE = {"p_deriv": 0.1, "p_agg_transition": 0.1, "p_programs": 0.3, "p_second_type": 0.15, "p_indirect_junction": 0.35}
 
 
 def strategy(tier):
